@@ -3,7 +3,7 @@ from plib import *
 from props.vcommon import *
 from props.builder import Prog
 
-LEAN_TARGETS = ["Plonk.Props.C02"]
+LEAN_TARGETS = ["Plonk.Props.C02", "Plonk.Props.WidgetTie"]
 ASSUMPTIONS = ["soundness is relative: KZG knowledge-soundness, the algebraic group model and the Fiat-Shamir heuristic are assumed; "
                "what is proved is the deterministic algebraic core with explicit bad-challenge sets",
                "pairing decided in the trapdoor view"]
